@@ -2,10 +2,12 @@
 // sample sequence, and every produced segment starts with a sync sample of the reference track.
 //
 // Legs (one replay kind each):
-//   segmenter    examples/segmenter BINARY (default, -m, -lazy) on progressive files written by internal/mp4build
-//   resegmenter  examples/resegmenter BINARY on single-track fragmented files written by internal/fragbuild
-//   fragmentify  mp4.MediaSegment.Fragmentify in-process on the same kind of files
-//   combinesegs  examples/combine-segs BINARY on two single-track init+media segment pairs with explicit per-sample values
+//
+//	segmenter    examples/segmenter BINARY (default, -m, -lazy) on progressive files written by internal/mp4build
+//	resegmenter  examples/resegmenter BINARY on single-track fragmented files written by internal/fragbuild
+//	fragmentify  mp4.MediaSegment.Fragmentify in-process on the same kind of files
+//	combinesegs  examples/combine-segs BINARY on two single-track init+media segment pairs with explicit per-sample values
+//
 // All outputs are read with the harness' own reader (fragbuild.Read / ReadWith), never with the library.
 package c11
 
